@@ -278,7 +278,13 @@ func (e *env) judge(spec *runSpec, mentions []mention, unjudged map[string]bool,
 		if m == nil {
 			return false
 		}
-		_, err := strconv.ParseInt(string(m[2]), 10, 64)
+		// histo joins its -e values with NUL and the counter takes the second NUL-separated field as the increment,
+		// so a captured NUL byte (binary input: a stored-block gzip file read without -z) ends the increment text
+		inc := m[2]
+		if i := bytes.IndexByte(inc, 0); i >= 0 {
+			inc = inc[:i]
+		}
+		_, err := strconv.ParseInt(string(inc), 10, 64)
 		return err != nil
 	}
 	want := map[string]int{}     // output line -> times
@@ -539,7 +545,9 @@ func one(c *run.Ctx, cs Case) {
 	defer c.End()
 	root := filepath.Join(c.WorkDir, "t")
 	os.RemoveAll(root)
-	defer os.RemoveAll(root)
+	if c.Replay == nil || os.Getenv("VERIF_KEEP_WORK") != "1" { // a replay may keep its tree for inspection
+		defer os.RemoveAll(root)
+	}
 	e := &env{c: c, cs: cs, root: root}
 	r := run.NewRand(cs.Seed, "C06", cs.Kind, cs.Index)
 	thorough := cs.Tier == "thorough"
